@@ -528,7 +528,18 @@ def introspectionFieldsB (s : Schema) : Bool :=
 
 def IntrospectionFields (s : Schema) : Prop := introspectionFieldsB s = true
 
+/-- the root operation types are object types (GraphQL §3.3.1).  The loader does NOT enforce this
+    (`input Query { … }` becomes the query root and receives `__schema`/`__type`); the clause is judged
+    on the real loader's output and is a recorded finding, not part of `Closed`. -/
+def rootTypesAreObjects (s : Schema) : Bool :=
+  [s.query, s.mutation, s.subscription].all fun r =>
+    match r with
+    | none => true
+    | some n => typeIs s n (· == .object)
+
 def loadedClauses (s : Schema) : List (String × Bool) :=
-  closedClauses s ++ relationClauses s ++ [("hasBuiltins", hasBuiltinsB s), ("introspectionFields", introspectionFieldsB s)]
+  closedClauses s ++ relationClauses s ++
+    [("hasBuiltins", hasBuiltinsB s), ("introspectionFields", introspectionFieldsB s),
+     ("rootTypesAreObjects", rootTypesAreObjects s)]
 
 end Gql.Spec
